@@ -59,6 +59,10 @@ pub struct TableauCase {
     /// Enumerate every prefix of the uninterrupted `solve(10_000)` first.
     pub prefixes: bool,
     pub ops: Vec<Op>,
+    /// Clock behaviour while the case runs. The tableau takes no time limit: a moving or
+    /// jumping clock (seen through `web_time` or `std::time`) must change nothing.
+    #[serde(default)]
+    pub clock: Option<crate::solvers::Sched>,
 }
 
 #[derive(Clone, Debug)]
@@ -831,6 +835,21 @@ fn model_truth(m: &GenModel) -> Verdict {
 }
 
 pub fn run_tableau_case(case: &TableauCase) -> TableauRun {
+    match case.clock {
+        None => run_tableau_case_inner(case),
+        Some(sched) => {
+            web_time::sim::install(sched.to_clock(), 0);
+            let out = std::panic::catch_unwind(std::panic::AssertUnwindSafe(|| run_tableau_case_inner(case)));
+            web_time::sim::uninstall();
+            match out {
+                Ok(r) => r,
+                Err(p) => std::panic::resume_unwind(p),
+            }
+        }
+    }
+}
+
+fn run_tableau_case_inner(case: &TableauCase) -> TableauRun {
     let mut ctx = Ctx {
         violations: Vec::new(),
         skipped: None,
@@ -1526,6 +1545,7 @@ pub fn gen_case(rng: &mut Rng, index: u64) -> (String, TableauCase) {
                 source,
                 prefixes: true,
                 ops,
+                clock: gen_clock(rng),
             },
         );
     }
@@ -1579,6 +1599,22 @@ pub fn gen_case(rng: &mut Rng, index: u64) -> (String, TableauCase) {
             source,
             prefixes: true,
             ops,
+            clock: gen_clock(rng),
         },
     )
+}
+
+fn gen_clock(rng: &mut Rng) -> Option<crate::solvers::Sched> {
+    use crate::solvers::Sched;
+    match rng.weighted(&[50, 25, 25]) {
+        0 => None,
+        1 => Some(Sched::JumpAt {
+            k: rng.range(1, 6) as u64,
+            nanos: 1u64 << rng.range(20, 62),
+        }),
+        _ => Some(Sched::Ticks {
+            seed: rng.next_u64(),
+            mix: rng.below(4) as u8,
+        }),
+    }
 }
